@@ -57,7 +57,7 @@ def strategy(tier):
         'files': st.lists(filest, min_size=2, max_size=6),
         'acyclic': st.booleans(),
         'fmt': st.sampled_from(['html', 'latex', 'fodt', 'opml', 'mmd', 'beamer', 'epub']),
-        'search': st.sampled_from(['dir', 'dir/', 'other']),
+        'search': st.sampled_from(['dir', 'dir/', 'other', 'dir', 'null']),
         'cli': st.integers(0, 11),
     })
 
@@ -177,7 +177,7 @@ def materialise(case, root, search):
 def model_expand(root, files, rel, search_path, source_path, fmt, anc_text, anc_real, visited, top=False, skip_cycles=False):
     """Reference expansion written from the documentation.  Raises Cyclic if a file is reached through itself."""
     meta, body = files[rel]
-    sf = search_path if search_path.endswith('/') else search_path + '/'
+    sf = None if not search_path else (search_path if search_path.endswith('/') else search_path + '/')
     for line in meta.splitlines():
         if line.lower().startswith('transclude base:'):
             base = line.split(':', 1)[1].strip()
@@ -186,6 +186,9 @@ def model_expand(root, files, rel, search_path, source_path, fmt, anc_text, anc_
             else:
                 d = source_path[:source_path.rfind('/') + 1]
                 sf = d + base
+    if sf is None:
+        # neither a search path nor a transclude base: nowhere to look, the text stays as it is
+        return (meta + body) if top else body
     out = ''
     pos = 0
     scan = 0
@@ -235,7 +238,7 @@ def check(case, ctx):
     top_rel = '%sf0.txt' % DIRS[case['files'][0]['dir']]
     top_path = os.path.join(root, top_rel)
     top_dir = os.path.dirname(top_path)
-    search = {'dir': top_dir, 'dir/': top_dir + '/', 'other': os.path.join(root, 'sub')}[case['search']]
+    search = {'dir': top_dir, 'dir/': top_dir + '/', 'other': os.path.join(root, 'sub'), 'null': ''}[case['search']]      # '' is passed as a NULL search path
     names, files = materialise(case, root, search)
     src = files[top_rel][0] + files[top_rel][1]
     # model
